@@ -568,6 +568,47 @@ func writerScenario(s *Sim, params map[string]string) {
 		WriteBackoffMin: Pick(t, "cfg", 100*time.Millisecond, 10*time.Millisecond),
 		WriteBackoffMax: Pick(t, "cfg", time.Second, 200*time.Millisecond),
 	}
+	if st.timingFaults && !st.raceClose && t.Intn("wstall", 3) == 0 { // (the second user would outlive a Close that races with the actors)
+		// Full socket buffers: for a while the broker does not read from one of
+		// the Transport's connections, writes to it block until their deadline.
+		// A second user of the same Transport, with a longer time-out, keeps
+		// the connections' deadlines from being the Writer's own.
+		aux := &kafka.Client{Addr: kafka.TCP(cl.Brokers[0].Addr()), Transport: tr, Timeout: 10 * time.Second}
+		auxStop := false
+		s.Go("aux", func() {
+			for i := 0; i < 8 && !auxStop && !s.Failed(); i++ {
+				tn := topics[t.Intn("wstall", len(topics))]
+				ctx, cancel := context.WithTimeout(context.Background(), 10*time.Second)
+				req := map[string][]kafka.OffsetRequest{}
+				for pi := range cl.Topics[tn].Parts {
+					req[tn] = append(req[tn], kafka.LastOffsetOf(pi))
+				}
+				aux.ListOffsets(ctx, &kafka.ListOffsetsRequest{Topics: req})
+				cancel()
+				s.Sleep(time.Duration(t.Range("wstall", 20, 600)) * time.Millisecond)
+			}
+		})
+		for k := 0; k < t.Range("wstall", 1, 3); k++ {
+			at := time.Duration(t.Range("wstall", 50, 4000)) * time.Millisecond
+			dur := time.Duration(t.Range("wstall", 100, 3000)) * time.Millisecond
+			s.After(at, "write-stall", func() {
+				var open []*Conn
+				for _, c := range n.Conns() {
+					if c.Owner == "writer" && !c.ClientClosed() && !c.ServerDead() {
+						open = append(open, c)
+					}
+				}
+				if len(open) == 0 {
+					return
+				}
+				c := open[t.Intn("wstall", len(open))]
+				c.SetWriteStall(true)
+				s.Count("fault:write-stall")
+				s.After(dur, "write-stall-ends", func() { c.SetWriteStall(false) })
+			})
+		}
+		s.After(6*time.Second, "aux-stop", func() { auxStop = true })
+	}
 	for _, b := range cl.Brokers {
 		if b.Versions[0][1] < prodCeil {
 			prodCeil = b.Versions[0][1]
